@@ -26,7 +26,8 @@ Proof. exact subst_absent. Qed.
 Print Assumptions C05_subst_absent.
 
 (* reference resolution terminates on every variable table, including self- and mutually-referential ones
-   (repaired resolver: the inner while-loop remembers the reference texts it has tried) *)
+   (repaired resolver: the inner while-loop remembers the reference texts it has tried, follows plain references
+   only, and an index applies to the value the chain ends in) *)
 Theorem C05_resolve_terminates : forall vars r, resolve_reference vars r <> RFuel.
 Proof. exact resolve_terminates. Qed.
 Print Assumptions C05_resolve_terminates.
@@ -38,6 +39,21 @@ Example C05_former_loop :
                (KS (of_string "b"), Leaf (SStr (of_string "$c")));
                (KS (of_string "c"), Lst [Leaf (SStr (of_string "$b[0]"))])] in
   resolve_reference vars (of_string "$a") = RNone.
+Proof. vm_compute. reflexivity. Qed.
+
+(* an unevaluated expression is not a value: x = [5, 6], a = "$x[0] + 1" *)
+Example C05_expression_not_followed :
+  let vars := [(KS (of_string "x"), Lst [Leaf (SInt 5); Leaf (SInt 6)]);
+               (KS (of_string "a"), Leaf (SStr (of_string "$x[0] + 1")))] in
+  resolve_reference vars (of_string "$a") = RNone.
+Proof. vm_compute. reflexivity. Qed.
+
+(* the index applies to the value the chain ends in: x = [5, 6], ab = "$x", abc = "$ab" *)
+Example C05_index_end_of_chain :
+  let vars := [(KS (of_string "x"), Lst [Leaf (SInt 5); Leaf (SInt 6)]);
+               (KS (of_string "ab"), Leaf (SStr (of_string "$x")));
+               (KS (of_string "abc"), Leaf (SStr (of_string "$ab")))] in
+  resolve_reference vars (of_string "$abc[1]") = RVal (Leaf (SInt 6)).
 Proof. vm_compute. reflexivity. Qed.
 
 (* an undeclared name is unresolved *)
